@@ -8,6 +8,8 @@ GEN = os.path.join(checklib.LEAN, "Ecal", "Gen", "C08.lean")
 
 
 def decode(p):
+    if p.startswith("FMT "):
+        return {"format_tool_tree_variant": p[4:]}
     f = p.split(" ", 2)
     try:
         return {"source": bytes.fromhex(f[0]).decode("utf8", "replace") if f[0] != "-" else "",
